@@ -62,6 +62,7 @@ type cs struct {
 	RF     string      `json:"rf"`  // MinimumRiskFactor
 	Unb    int64       `json:"unb"` // staking unbonding time ns (0: keep default)
 	VTok   []string    `json:"vtok"` // optional: extra tokens credited to validator i without shares (exchange rate != 1)
+	Force  []int       `json:"force"` // owners on lockup's ForceUnlockAllowedAddresses list
 	Ops    []op        `json:"ops"`
 }
 
@@ -122,6 +123,10 @@ func classify(err error) int {
 		return 19
 	case strings.Contains(s, "insufficient funds") || strings.Contains(s, "is smaller than"):
 		return 20
+	case strings.Contains(s, "not allowed to force unlock"):
+		return 21
+	case strings.Contains(s, "superfluid delegation exists for lock"):
+		return 22
 	}
 	return 97
 }
@@ -381,6 +386,13 @@ func (d *drv) setup(t *testing.T) {
 		}
 	}
 	d.owners = h.TestAccs
+	if len(d.c.Force) > 0 {
+		lp := app.LockupKeeper.GetParams(h.Ctx)
+		for _, i := range d.c.Force {
+			lp.ForceUnlockAllowedAddresses = append(lp.ForceUnlockAllowedAddresses, d.owner(i).String())
+		}
+		app.LockupKeeper.SetParams(h.Ctx, lp)
+	}
 	// all OSMO (and swap tokens) the history will need is minted here, before the first observation, so that the
 	// only OSMO supply changes during the history are the superfluid module's own
 	big30 := bi("1000000000000000000000000000000")
@@ -532,6 +544,28 @@ func (d *drv) step(o op) (int, uint64) {
 	case "beginunlock":
 		err = apph.Atomic(d.ctx, func(ctx sdk.Context) error {
 			_, e := lkms.BeginUnlocking(ctx, &lockuptypes.MsgBeginUnlocking{Owner: d.owner(o.O).String(), ID: o.ID})
+			return e
+		})
+	case "beginunlockpartial":
+		err = apph.Atomic(d.ctx, func(ctx sdk.Context) error {
+			den := d.denoms[0]
+			if l, e := app.LockupKeeper.GetLockByID(ctx, o.ID); e == nil && len(l.Coins) == 1 {
+				den = l.Coins[0].Denom
+			}
+			r, e := lkms.BeginUnlocking(ctx, &lockuptypes.MsgBeginUnlocking{Owner: d.owner(o.O).String(), ID: o.ID, Coins: sdk.Coins{sdk.NewCoin(den, bi(o.Amt))}})
+			if e == nil {
+				newID = r.UnlockingLockID
+			}
+			return e
+		})
+	case "beginunlockall":
+		err = apph.Atomic(d.ctx, func(ctx sdk.Context) error {
+			_, e := lkms.BeginUnlockingAll(ctx, &lockuptypes.MsgBeginUnlockingAll{Owner: d.owner(o.O).String()})
+			return e
+		})
+	case "forceunlock":
+		err = apph.Atomic(d.ctx, func(ctx sdk.Context) error {
+			_, e := lkms.ForceUnlock(ctx, &lockuptypes.MsgForceUnlock{Owner: d.owner(o.O).String(), ID: o.ID})
 			return e
 		})
 	case "withdraw":
